@@ -4,6 +4,7 @@ its own bookkeeping, block contents and owning pointer, over one allocator ledge
 -/
 import Cntgs.World
 import Cntgs.Props.C01
+import Cntgs.FixProofs
 namespace Cntgs.C09
 
 /-- what a vector shows through its public interface besides capacity: size, fixed sizes, every element -/
@@ -182,5 +183,44 @@ theorem moved_from_usable (v : Vec) : v.movedFrom.clear.size = 0 ∧ v.movedFrom
   constructor
   · simp only [Vec.clear, Vec.movedFrom, Vec.size, Vec.fixedLoc, Loc.resize]; split <;> simp_all
   · rfl
+
+/-- a vector that received the bookkeeping through a relocating locator constructor represents the same element sequence
+    in the same canonical layout: every history theorem (C01, C06, C10, C16, C18) applies to a copy as to its source -/
+theorem relocated_offset_table {v w : Vec} {es : List Elem} (h : VarInv v es) (junk : Nat → Nat) (hps : w.ps = v.ps)
+    (hmem : w.mem = v.mem) (hloc : w.loc = v.loc.relocated junk) (hpo : w.poison = false) : VarInv w es := by
+  have hf : w.fixedLoc = false := by unfold Vec.fixedLoc; rw [hps]; exact h.notFixed
+  refine ⟨hps ▸ h.lok, hf, hps ▸ h.eok, ?_, ?_, ?_, ?_, hpo⟩
+  · rw [hloc]; exact h.size_eq
+  · intro k hk
+    rw [hloc, hps]
+    simp only [Loc.relocated, h.size_eq, hk, if_true]
+    exact h.slots_eq k hk
+  · rw [hmem, hps]; exact h.mem_eq
+  · rw [hloc, hps]; exact h.last_eq
+
+theorem relocated_stride {v w : Vec} {es : List Elem} (h : FixInv v es) (junk : Nat → Nat) (hps : w.ps = v.ps)
+    (hmem : w.mem = v.mem) (hloc : w.loc = v.loc.relocated junk) (hpo : w.poison = false) : FixInv w es := by
+  have hf : w.fixedLoc = true := by unfold Vec.fixedLoc; rw [hps]; exact h.isFixed
+  refine ⟨hps ▸ h.lok, hf, hps ▸ h.eok, ?_, ?_, ?_, ?_, hpo⟩
+  · rw [hloc]; exact h.count_eq
+  · rw [hloc, hps]; exact h.stride_dvd
+  · rw [hloc, hps]; exact h.fits
+  · rw [hmem, hloc, hps]; exact h.mem_eq
+
+/-- **copy construction yields a vector in canonical layout** (offset-table locator) -/
+theorem copy_is_canonical (w : World) (s d : Nat) (vs : Vec) (es : List Elem) (hs : w.vecs s = some vs) (hinv : VarInv vs es)
+    (hok : (w.copy s d).threw = false) : ∃ vd, (w.copy s d).vecs d = some vd ∧ VarInv vd es := by
+  unfold World.copy at hok ⊢
+  simp only [hs] at hok ⊢
+  cases hp : allocPair w.heap w.acfg vs.fixedLoc vs.units vs.S (socc vs.alloc) vs.cap with
+  | mk h1 r =>
+    rw [hp] at hok
+    cases r with
+    | none => simp at hok
+    | some pt =>
+      obtain ⟨p, t⟩ := pt
+      simp only [World.set]
+      exact ⟨{ (vs.setPtr p) with tbl := t, loc := vs.loc.relocated w.junk }, by simp,
+        relocated_offset_table hinv w.junk rfl rfl rfl hinv.clean⟩
 
 end Cntgs.C09
